@@ -54,8 +54,14 @@ def ephemeral_guards(body):
 
 
 def rule_ttl_decision_final(run):
+    for pb in C.publishers(run.facts):
+        run.touch(pb)
+        rule_ttl_decision_final_for(run, pb, pb.def_)
+
+
+def rule_ttl_decision_final_for(run, ab0, AP):
     # the decision is taken on the frame's final ttl: no write to `<frame>.ttl` follows the point where the ttl is read for it
-    ab0 = C.body_or_fail(run, C.APPEND)
+    cut = C.iteration_cut(ab0)
     ab0.defs()
     ttl_writes = [(bi, sp) for (bi, si, lhs, rv, sp) in ab0.field_writes
                   if lhs["p"] and isinstance(lhs["p"][-1], dict) and lhs["p"][-1].get("n") == "ttl" and lhs["p"][-1].get("adt") == C.FRAME and bi in ab0.live_blocks()]
@@ -71,8 +77,8 @@ def rule_ttl_decision_final(run):
                 reads.append((site, ab0.blocks[site]["term"]["sp"]))
         elif si["kind"] == "variant" and si.get("adt") == C.TTL and q.has_field(si["cond"], "ttl"):
             reads.append((bb, ab0.blocks[bb]["term"]["sp"]))
-    stale = [(rs, ws) for (rb, rs) in reads for (wb, ws) in ttl_writes if q.reaches(ab0, rb, wb)]
-    run.ob("%s|ephemeral-test-on-final-ttl" % C.APPEND, bool(reads) and not stale, ab0.sp,
+    stale = [(rs, ws) for (rb, rs) in reads for (wb, ws) in ttl_writes if q.reaches(ab0, rb, wb, removed_blocks=cut)]
+    run.ob("%s|ephemeral-test-on-final-ttl" % AP, bool(reads) and not stale, ab0.sp,
            "append decides `store or not` on the ttl the frame ends up with: no assignment to frame.ttl (the xs.context branch forces Forever) follows the test (%s)" % stale,
            reason="ephemeral-decision-on-stale-ttl")
 
@@ -105,13 +111,14 @@ def r1(run):
             run.ob("%s|batch-insert|not-ephemeral" % fn, never_for_ephemeral(b, c.bb), c.sp,
                    "a partition insert outside Store::insert_frame is reached only through a `ttl != Ephemeral` edge", reason="ephemeral-may-be-stored")
     # every Ok return of append is preceded by the broadcast
-    ab = C.body_or_fail(run, C.APPEND)
-    sends = [c for c in q.live_calls(ab, C.BROADCAST_SEND) if C.frame_typed(c)]
-    for (bb, e, raw) in ab.return_defs():
-        x = strip(e)
-        if x[0] == "agg" and x[1].get("variant") == "Ok":
-            run.ob("%s|ok-implies-broadcast" % C.APPEND, bool(sends) and q.dominated(ab, bb, via_blocks=[s.bb for s in sends]), ab.blocks[bb]["term"]["sp"],
-                   "append returns Ok only after broadcasting the frame (ephemeral frames are still delivered)", reason="ephemeral-not-delivered")
+    for ab in C.publishers(run.facts):
+      AP = ab.def_
+      sends = [c for c in q.live_calls(ab, C.BROADCAST_SEND) if C.frame_typed(c)]
+      for (bb, e, raw) in ab.return_defs():
+          x = strip(e)
+          if x[0] == "agg" and x[1].get("variant") == "Ok":
+              run.ob("%s|ok-implies-broadcast" % AP, bool(sends) and q.dominated(ab, bb, via_blocks=[s.bb for s in sends]), ab.blocks[bb]["term"]["sp"],
+                     "append returns Ok only after broadcasting the frame (ephemeral frames are still delivered)", reason="ephemeral-not-delivered")
     # the ephemeral edge must not be an early return: the broadcast is reachable from it
     g = ephemeral_guards(ab)
     for bb, si in ab.switches():
